@@ -166,7 +166,7 @@ FireUnbound(st, x) == LET s1 == IF x \in st.hv /\ D(st, "Dev_NoGlobalVarHoist") 
 SetVar(st, x, v) ==
   LET a == LookupEnv(st.heap, st.env, x) IN
   IF a # 0 THEN [st EXCEPT !.heap[a].vars[x] = v]
-  ELSE IF st.env = 1 /\ (D(st, "Dev_NoGlobalVarHoist") \/ D(st, "Dev_NoFnHoist"))
+  ELSE IF st.env \in {1, st.pl} /\ (D(st, "Dev_NoGlobalVarHoist") \/ D(st, "Dev_NoFnHoist"))
        THEN [st EXCEPT !.heap[1].vars = (x :> v) @@ @]          \* as-is: the declaration creates the global here
   ELSE Flag([st EXCEPT !.heap[1].vars = (x :> v) @@ @])       \* assignment to an undeclared name: never generated
 \* own-property write
@@ -318,7 +318,8 @@ StepS(st, s, labs) ==
   CASE s.s = "expr" -> Ev(Push(st, [f |-> "exprstmt"]), s.x)
     [] s.s = "var" -> VarDecls(st, s.ds)
     [] s.s = "fdecl" -> IF D(st, "Dev_NoFnHoist")           \* as-is: the declaration is evaluated in place
-                        THEN Cmp(SetVar(Alloc(Fire(st, "Dev_NoFnHoist"), <<HFun(FdeclAsFun(s), st.env)>>), s.name, VRef(Len(st.heap) + 1)), CN(Empty))
+                        THEN Cmp(SetVar(Alloc(Fire(st, "Dev_NoFnHoist"), <<HFun(FdeclAsFun(s), IF st.pl # 0 /\ st.env = st.pl THEN 1 ELSE st.env)>>),
+                                        s.name, VRef(Len(st.heap) + 1)), CN(Empty))
                         ELSE Cmp(st, CN(Empty))
     [] s.s = "empty" -> Cmp(st, CN(Empty))
     [] s.s = "block" -> IF s.b = <<>> THEN Cmp(st, CN(Empty))
@@ -376,10 +377,11 @@ StepE(st, x) ==
                        ELSE Ev(Push(st, [f |-> "callf", x |-> x, new |-> FALSE]), x.f)
     [] x.e = "new" -> Ev(Push(st, [f |-> "callf", x |-> x, new |-> TRUE]), x.f)
     [] x.e = "fun" ->
+         LET cenv == IF st.pl # 0 /\ st.env = st.pl THEN 1 ELSE st.env IN      \* (as-is: script-level slots are invisible to functions)
          IF x.name # "" /\ ~x.arrow                            \* named function expression: own scope for its name
          THEN LET a1 == Len(st.heap) + 1 IN
-              Ret(Alloc(st, <<HEnv((x.name :> VRef(a1 + 1)), st.env), HFun(x, a1)>>), VRef(a1 + 1))
-         ELSE Ret(Alloc(st, <<HFun(x, st.env)>>), VRef(Len(st.heap) + 1))
+              Ret(Alloc(st, <<HEnv((x.name :> VRef(a1 + 1)), cenv), HFun(x, a1)>>), VRef(a1 + 1))
+         ELSE Ret(Alloc(st, <<HFun(x, cenv)>>), VRef(Len(st.heap) + 1))
     [] x.e = "arr" -> IF x.a = <<>> THEN Ret(Alloc(st, <<HArr(<<>>)>>), VRef(Len(st.heap) + 1))
                       ELSE Ev(Push(st, [f |-> "arrlit", done |-> <<>>, rest |-> Tail(x.a)]), Head(x.a))
     [] x.e = "obj" -> IF x.vs = <<>> THEN Ret(Alloc(st, <<HObj(<<>>, <<>>, <<>>)>>), VRef(Len(st.heap) + 1))
@@ -504,8 +506,9 @@ StepC(st, c) ==
     [] fr.f = "scope" -> Cmp([s0 EXCEPT !.env = fr.env], c)
     [] fr.f = "try" ->
          IF fr.ph = "block" /\ c.c = "throw" /\ fr.t.c.s # "none"
-         THEN IF D(st, "Dev_CatchParamScope")      \* as-is: the parameter is a variable of the enclosing function (or of the script)
-              THEN LET s1 == IF fr.t.cv \in DOMAIN st.heap[st.env].vars THEN Fire(s0, "Dev_CatchParamScope") ELSE s0
+         THEN IF D(st, "Dev_CatchParamScope")      \* as-is: the parameter is a variable of the enclosing function, or - at script
+                                                   \* level - a slot of the script that later script-level code sees and functions do not
+              THEN LET s1 == IF fr.t.cv \in DOMAIN st.heap[st.env].vars \/ st.env = st.pl THEN Fire(s0, "Dev_CatchParamScope") ELSE s0
                    IN Ex(Push([s1 EXCEPT !.heap[st.env].vars = (fr.t.cv :> c.v) @@ @], [fr EXCEPT !.ph = "catch"]), fr.t.c)
               ELSE LET a == Len(st.heap) + 1 IN                                   \* catch: fresh scope for the parameter
               Ex(Push(Push(Alloc([s0 EXCEPT !.env = a], <<HEnv((fr.t.cv :> c.v), st.env)>>),
@@ -542,8 +545,11 @@ InitState(prog, devs) ==
       FS == IF hoistF THEN {fds[j].name : j \in 1..Len(fds)} ELSE {}
       VS == IF hoistV THEN VarNamesL(body) ELSE {}
       vars == [x \in FS \cup VS |-> IF x \in FS THEN VRef(1 + LastIdx(fds, LAMBDA d : d.name = x)) ELSE VUndef]
-      heap == <<HEnv(vars, 0)>> \o (IF hoistF THEN [j \in 1..Len(fds) |-> HFun(FdeclAsFun(fds[j]), 1)] ELSE <<>>)
-  IN [ctl |-> [m |-> "S", s |-> SBlock(body), labs |-> {}], env |-> 1, k |-> <<>>, heap |-> heap, log |-> <<>>,
+      heap0 == <<HEnv(vars, 0)>> \o (IF hoistF THEN [j \in 1..Len(fds) |-> HFun(FdeclAsFun(fds[j]), 1)] ELSE <<>>)
+      slots == "Dev_CatchParamScope" \in devs               \* as-is: script-level code has slots of its own on top of the globals
+      heap == IF slots THEN Append(heap0, HEnv([x \in {} |-> VUndef], 1)) ELSE heap0
+      pl == IF slots THEN Len(heap) ELSE 0
+  IN [ctl |-> [m |-> "S", s |-> SBlock(body), labs |-> {}], env |-> IF slots THEN pl ELSE 1, pl |-> pl, k |-> <<>>, heap |-> heap, log |-> <<>>,
       steps |-> 0, hist |-> <<>>, devs |-> devs, fired |-> {}, flag |-> "", out |-> [o |-> "none"],
       hv |-> VarNamesL(body), hf |-> {fds[j].name : j \in 1..Len(fds)}]
 
